@@ -327,10 +327,15 @@ func plans() map[string]*propertyPlan {
 			nontrivial:  "nontrivial", evaluations: "texts", exhaustive: true,
 			quick: []spec{
 				enumSpec(sigma15, 5, "", "", 16), enumSpec(sigma15, 5, "a ", ";", 16), enumSpec(sigma15, 4, "a{", "}", 8), enumSpec(sigma15, 5, "a \"b\"", "", 16), enumSpec(sigma15, 4, "pattern ", ";", 8),
+				// deep look-ahead behind a quoted string over the five symbols that matter there
+				// (a seeded change that took a quoted "+" for the concatenation operator needs
+				// `"+""b"`, six symbols, which the 15-symbol enumerations do not reach)
+				enumSpec("a+\"' ", 7, "a \"b\"", ";", 8), enumSpec("a+\"';{}", 6, "a ", "", 8),
 				{family: "random", cases: 40000, cpuS: 600, asKB: 8 << 20, wallS: 900},
 			},
 			thorough: []spec{
 				enumSpec(sigma15, 6, "", "", 64), enumSpec(sigma15, 6, "a ", ";", 64), enumSpec(sigma15, 5, "a{", "}", 16), enumSpec(sigma15, 6, "a \"b\"", "", 64), enumSpec(sigma15, 5, "pattern ", ";", 16),
+				enumSpec("a+\"' ", 9, "a \"b\"", ";", 32), enumSpec("a+\"';{}", 8, "a ", "", 32), enumSpec("a+\"' \n", 8, "a \"b\"", ";", 32),
 				enumSpec("a;{}\"\\n \n", 8, "", "", 64), enumSpec("a+\"';\n /*", 7, "", "", 32), enumSpec("a\" \n\t\\n;", 8, "", "", 64),
 				{family: "random", cases: 2000000, cpuS: 3600, asKB: 8 << 20, wallS: 5400},
 			},
@@ -718,10 +723,16 @@ func (e *env) run(prop string) int {
 		gks = append(gks, k)
 	}
 	sort.Strings(gks)
-	os.MkdirAll(filepath.Join(e.root, "replays"), 0o755)
+	outRoot := e.root
+	if os.Getenv("VERIF_NO_EVIDENCE") != "" {
+		// mutation trials against a scratch copy must not overwrite the evidence and
+		// replays of /repo; they go to the scratch directory and vanish with it
+		outRoot = e.scratch
+	}
+	os.MkdirAll(filepath.Join(outRoot, "replays"), 0o755)
 	for i, k := range gks {
 		v := groups[k][0]
-		path := filepath.Join(e.root, "replays", fmt.Sprintf("%s-%s-seed%d-%d.json", prop, e.tier, e.seed, i))
+		path := filepath.Join(outRoot, "replays", fmt.Sprintf("%s-%s-seed%d-%d.json", prop, e.tier, e.seed, i))
 		rb, _ := json.MarshalIndent(map[string]any{"property": prop, "tier": e.tier, "seed": e.seed, "monitor": v.Monitor, "class": v.Class, "detail": v.Detail, "case_id": v.CaseID, "index": v.Index, "case": v.Case, "facts": v.Facts, "occurrences_in_this_run": len(groups[k]), "family": familyOf(v.CaseID)}, "", " ")
 		os.WriteFile(path, rb, 0o644)
 		first := strings.SplitN(v.Detail, "\n", 2)[0]
@@ -778,7 +789,7 @@ func (e *env) run(prop string) int {
 		cov["samples"] = []any{"(no sample recorded)"}
 	}
 	ev := &evid.Evidence{PropertyID: prop, Tier: e.tier, Seed: e.seed, Level: pl.level, Coverage: cov, Assumptions: pl.assumptions, WallS: time.Since(t0).Seconds(), Violations: len(fresh)}
-	if err := evid.Write(filepath.Join(e.root, "evidence"), ev); err != nil {
+	if err := evid.Write(filepath.Join(outRoot, "evidence"), ev); err != nil {
 		fmt.Printf("BROKEN: cannot write evidence: %v\n", err)
 		return 2
 	}
